@@ -308,6 +308,7 @@ func sendPacket(w io.Writer, m encoding.BinaryMarshaler) error {
 	}
 
 	if len(payload) > 0 {
+		simYield("pkt.mid", uint64(length))
 		if _, err := w.Write(payload); err != nil {
 			return fmt.Errorf("failed to send packet payload: %w", err)
 		}
